@@ -161,14 +161,13 @@ class WMSServer(Server):
 
         resp = Response(result_buf, content_type=img_opts.format.mime_type)
 
-        if query.tiled_only and isinstance(result.cacheable, CacheInfo):
+        if not result.cacheable:
+            resp.cache_headers(no_cache=True)
+        elif query.tiled_only and isinstance(result.cacheable, CacheInfo):
             cache_info = result.cacheable
             resp.cache_headers(cache_info.timestamp, etag_data=(cache_info.timestamp, cache_info.size),
                                max_age=self.max_tile_age)
             resp.make_conditional(map_request.http)
-
-        if not result.cacheable:
-            resp.cache_headers(no_cache=True)
 
         return resp
 
